@@ -1,7 +1,7 @@
 """C02 — pairwise cost table matches the definition, is mirror-consistent, and sums to the Kemeny score."""
 import numpy as np
 from hypothesis import strategies as st
-from vlib import gen, oracle, lib
+from vlib import gen, oracle, lib, mutate
 from vlib.harness import HypSub, EnumSub
 from vlib.lib import Violation
 from checks.c01 import small_datasets, DECODER
@@ -43,7 +43,8 @@ def table_cases(draw, tier):
     ds = draw(gen.datasets(max_n=12 if big else 8, max_m=8 if big else 5))
     univ = oracle.universe(ds["rankings"])
     cands = [draw(gen.candidates(univ)) for _ in range(3)]
-    return {"scheme": scheme, "dataset": ds, "cands": cands}
+    return {"scheme": scheme, "dataset": ds, "cands": cands,
+            "via_mutation": draw(mutate.via_strategy(ds["rankings"], p=4))}
 
 
 def ids_of(d, univ):
@@ -128,7 +129,12 @@ def check_small(case, ctx):
 def check_table_batched(case, ctx):
     # generation dominates the cost: the drawn scheme, then the decoder scheme on the same dataset and candidates
     # the same Dataset object serves both tables (and is then used a third time under the drawn scheme)
-    d = lib.mk_dataset(case["dataset"]["rankings"])
+    sch = lib.mk_scheme(case["scheme"])
+
+    def warm(d0):
+        PairwiseBasedAlgorithm.pairwise_cost_matrix(d0.get_positions(), sch)
+        PairwiseBasedAlgorithm.graph_of_elements_with_robust_arcs(d0.get_positions(), sch)
+    d = mutate.build(case["dataset"]["rankings"], case.get("via_mutation"), warm)
     check_table(case, ctx, d=d)
     check_table(case, ctx, scheme=DECODER, d=d)
     check_table(case, ctx, d=d)
